@@ -47,9 +47,21 @@ func main() {
 		}
 		os.Exit(cmdReplay(env, spec, os.Args[3]))
 	case "--selftest":
-		os.Exit(cmdSelftest(env, spec, base))
+		rc := cmdSelftest(env, spec, base)
+		for _, p := range spec.Parts {
+			if r := cmdSelftest(env, p, base); r > rc {
+				rc = r
+			}
+		}
+		os.Exit(rc)
 	case "--weavetest":
-		os.Exit(cmdWeavetest(env, spec))
+		rc := cmdWeavetest(env, spec)
+		for _, p := range spec.Parts {
+			if r := cmdWeavetest(env, p); r > rc {
+				rc = r
+			}
+		}
+		os.Exit(rc)
 	case "quick", "thorough":
 		tier := os.Args[2]
 		if t := os.Getenv("VERIF_TIER"); t == "quick" || t == "thorough" {
